@@ -15,9 +15,10 @@ package fpgo
 //   U  unsupported kind            => ErrConversionUnsupported
 
 //@ func (someDef).ToInt
-//@   prop C02
+//@   prop C01,C02
 //@   arith bv
 //@   opt split=convkinds
+//@   opt split-only.C01=unsupported
 //@   requires wf: self.isNil == absent(self.ref) && self.isPresent == !self.isNil
 //@   ensures N: self.isNil ==> r0 == 0 && r1 == ErrConversionNil
 //@   ensures S: !self.isNil && convSupported(self.ref) && r1 == nil ==> convExact(r0, self.ref)
@@ -27,9 +28,10 @@ package fpgo
 //@   ensures I: !self.isNil && convSameType(self.ref, r0) ==> r1 == nil
 
 //@ func (someDef).ToInt8
-//@   prop C02
+//@   prop C01,C02
 //@   arith bv
 //@   opt split=convkinds
+//@   opt split-only.C01=unsupported
 //@   requires wf: self.isNil == absent(self.ref) && self.isPresent == !self.isNil
 //@   ensures N: self.isNil ==> r0 == 0 && r1 == ErrConversionNil
 //@   ensures S: !self.isNil && convSupported(self.ref) && r1 == nil ==> convExact(r0, self.ref)
@@ -39,9 +41,10 @@ package fpgo
 //@   ensures I: !self.isNil && convSameType(self.ref, r0) ==> r1 == nil
 
 //@ func (someDef).ToInt16
-//@   prop C02
+//@   prop C01,C02
 //@   arith bv
 //@   opt split=convkinds
+//@   opt split-only.C01=unsupported
 //@   requires wf: self.isNil == absent(self.ref) && self.isPresent == !self.isNil
 //@   ensures N: self.isNil ==> r0 == 0 && r1 == ErrConversionNil
 //@   ensures S: !self.isNil && convSupported(self.ref) && r1 == nil ==> convExact(r0, self.ref)
@@ -51,9 +54,10 @@ package fpgo
 //@   ensures I: !self.isNil && convSameType(self.ref, r0) ==> r1 == nil
 
 //@ func (someDef).ToInt32
-//@   prop C02
+//@   prop C01,C02
 //@   arith bv
 //@   opt split=convkinds
+//@   opt split-only.C01=unsupported
 //@   requires wf: self.isNil == absent(self.ref) && self.isPresent == !self.isNil
 //@   ensures N: self.isNil ==> r0 == 0 && r1 == ErrConversionNil
 //@   ensures S: !self.isNil && convSupported(self.ref) && r1 == nil ==> convExact(r0, self.ref)
@@ -63,9 +67,10 @@ package fpgo
 //@   ensures I: !self.isNil && convSameType(self.ref, r0) ==> r1 == nil
 
 //@ func (someDef).ToInt64
-//@   prop C02
+//@   prop C01,C02
 //@   arith bv
 //@   opt split=convkinds
+//@   opt split-only.C01=unsupported
 //@   requires wf: self.isNil == absent(self.ref) && self.isPresent == !self.isNil
 //@   ensures N: self.isNil ==> r0 == 0 && r1 == ErrConversionNil
 //@   ensures S: !self.isNil && convSupported(self.ref) && r1 == nil ==> convExact(r0, self.ref)
@@ -75,9 +80,10 @@ package fpgo
 //@   ensures I: !self.isNil && convSameType(self.ref, r0) ==> r1 == nil
 
 //@ func (someDef).ToByte
-//@   prop C02
+//@   prop C01,C02
 //@   arith bv
 //@   opt split=convkinds
+//@   opt split-only.C01=unsupported
 //@   requires wf: self.isNil == absent(self.ref) && self.isPresent == !self.isNil
 //@   ensures N: self.isNil ==> r0 == 0 && r1 == ErrConversionNil
 //@   ensures S: !self.isNil && convSupported(self.ref) && r1 == nil ==> convExact(r0, self.ref)
@@ -87,9 +93,10 @@ package fpgo
 //@   ensures I: !self.isNil && convSameType(self.ref, r0) ==> r1 == nil
 
 //@ func (someDef).ToUint8
-//@   prop C02
+//@   prop C01,C02
 //@   arith bv
 //@   opt split=convkinds
+//@   opt split-only.C01=unsupported
 //@   requires wf: self.isNil == absent(self.ref) && self.isPresent == !self.isNil
 //@   ensures N: self.isNil ==> r0 == 0 && r1 == ErrConversionNil
 //@   ensures S: !self.isNil && convSupported(self.ref) && r1 == nil ==> convExact(r0, self.ref)
@@ -99,9 +106,10 @@ package fpgo
 //@   ensures I: !self.isNil && convSameType(self.ref, r0) ==> r1 == nil
 
 //@ func (someDef).ToUint
-//@   prop C02
+//@   prop C01,C02
 //@   arith bv
 //@   opt split=convkinds
+//@   opt split-only.C01=unsupported
 //@   requires wf: self.isNil == absent(self.ref) && self.isPresent == !self.isNil
 //@   ensures N: self.isNil ==> r0 == 0 && r1 == ErrConversionNil
 //@   ensures S: !self.isNil && convSupported(self.ref) && r1 == nil ==> convExact(r0, self.ref)
@@ -111,9 +119,10 @@ package fpgo
 //@   ensures I: !self.isNil && convSameType(self.ref, r0) ==> r1 == nil
 
 //@ func (someDef).ToUint16
-//@   prop C02
+//@   prop C01,C02
 //@   arith bv
 //@   opt split=convkinds
+//@   opt split-only.C01=unsupported
 //@   requires wf: self.isNil == absent(self.ref) && self.isPresent == !self.isNil
 //@   ensures N: self.isNil ==> r0 == 0 && r1 == ErrConversionNil
 //@   ensures S: !self.isNil && convSupported(self.ref) && r1 == nil ==> convExact(r0, self.ref)
@@ -123,9 +132,10 @@ package fpgo
 //@   ensures I: !self.isNil && convSameType(self.ref, r0) ==> r1 == nil
 
 //@ func (someDef).ToUint32
-//@   prop C02
+//@   prop C01,C02
 //@   arith bv
 //@   opt split=convkinds
+//@   opt split-only.C01=unsupported
 //@   requires wf: self.isNil == absent(self.ref) && self.isPresent == !self.isNil
 //@   ensures N: self.isNil ==> r0 == 0 && r1 == ErrConversionNil
 //@   ensures S: !self.isNil && convSupported(self.ref) && r1 == nil ==> convExact(r0, self.ref)
@@ -135,9 +145,10 @@ package fpgo
 //@   ensures I: !self.isNil && convSameType(self.ref, r0) ==> r1 == nil
 
 //@ func (someDef).ToUint64
-//@   prop C02
+//@   prop C01,C02
 //@   arith bv
 //@   opt split=convkinds
+//@   opt split-only.C01=unsupported
 //@   requires wf: self.isNil == absent(self.ref) && self.isPresent == !self.isNil
 //@   ensures N: self.isNil ==> r0 == 0 && r1 == ErrConversionNil
 //@   ensures S: !self.isNil && convSupported(self.ref) && r1 == nil ==> convExact(r0, self.ref)
@@ -147,9 +158,10 @@ package fpgo
 //@   ensures I: !self.isNil && convSameType(self.ref, r0) ==> r1 == nil
 
 //@ func (someDef).ToUintptr
-//@   prop C02
+//@   prop C01,C02
 //@   arith bv
 //@   opt split=convkinds
+//@   opt split-only.C01=unsupported
 //@   requires wf: self.isNil == absent(self.ref) && self.isPresent == !self.isNil
 //@   ensures N: self.isNil ==> r0 == 0 && r1 == ErrConversionNil
 //@   ensures S: !self.isNil && convSupported(self.ref) && r1 == nil ==> convExact(r0, self.ref)
@@ -159,9 +171,10 @@ package fpgo
 //@   ensures I: !self.isNil && convSameType(self.ref, r0) ==> r1 == nil
 
 //@ func (someDef).ToFloat32
-//@   prop C02
+//@   prop C01,C02
 //@   arith bv
 //@   opt split=convkinds
+//@   opt split-only.C01=unsupported
 //@   requires wf: self.isNil == absent(self.ref) && self.isPresent == !self.isNil
 //@   ensures N: self.isNil ==> r0 == 0 && r1 == ErrConversionNil
 //@   ensures S: !self.isNil && convSupported(self.ref) && r1 == nil ==> convExact(r0, self.ref)
@@ -171,9 +184,10 @@ package fpgo
 //@   ensures I: !self.isNil && convSameType(self.ref, r0) ==> r1 == nil
 
 //@ func (someDef).ToFloat64
-//@   prop C02
+//@   prop C01,C02
 //@   arith bv
 //@   opt split=convkinds
+//@   opt split-only.C01=unsupported
 //@   requires wf: self.isNil == absent(self.ref) && self.isPresent == !self.isNil
 //@   ensures N: self.isNil ==> r0 == 0 && r1 == ErrConversionNil
 //@   ensures S: !self.isNil && convSupported(self.ref) && r1 == nil ==> convExact(r0, self.ref)
@@ -183,9 +197,10 @@ package fpgo
 //@   ensures I: !self.isNil && convSameType(self.ref, r0) ==> r1 == nil
 
 //@ func (someDef).ToBool
-//@   prop C02
+//@   prop C01,C02
 //@   arith bv
 //@   opt split=convkinds
+//@   opt split-only.C01=unsupported
 //@   requires wf: self.isNil == absent(self.ref) && self.isPresent == !self.isNil
 //@   ensures N: self.isNil ==> r0 == false && r1 == ErrConversionNil
 //@   ensures B: !self.isNil && convSupported(self.ref) && r1 == nil ==> convBool(r0, self.ref)
@@ -730,7 +745,7 @@ package fpgo
 //@ define POOLINV_DoublyListItem(p) = p.Next == nil && p.Prev == nil && p.Val == nil
 
 //@ func (LinkedListQueue).generateNode
-//@   prop C06
+//@   prop C06,C08
 //@   opt poolfresh=st
 //@   modifies q, ite(q.nodeCount > 0, pn[plo], nil)
 //@   ghost nodes (Array Int Ref) of q.first
@@ -753,7 +768,7 @@ package fpgo
 //@   ensures free: LQ_FREE(pn, plo, plo+q.nodeCount, st, ix)
 
 //@ func (LinkedListQueue).recycleNode
-//@   prop C06
+//@   prop C06,C08
 //@   modifies q, node
 //@   ghost nodes (Array Int Ref) of q.first
 //@   ghost lo Int
@@ -775,7 +790,7 @@ package fpgo
 //@   ensures free: LQ_FREE(pn, plo, plo+q.nodeCount, st, ix)
 
 //@ func (LinkedListQueue).Offer
-//@   prop C06
+//@   prop C06,C08
 //@   opt frame=off
 //@   modifies all
 //@   ghost nodes (Array Int Ref) of q.first
@@ -798,7 +813,7 @@ package fpgo
 //@   ensures wf-free: LQ_FREE(pn, plo, plo+q.nodeCount, st, ix)
 
 //@ func (LinkedListQueue).Unshift
-//@   prop C06
+//@   prop C06,C08
 //@   opt frame=off
 //@   modifies all
 //@   ghost nodes (Array Int Ref) of q.first
@@ -822,7 +837,7 @@ package fpgo
 //@   ensures wf-free: LQ_FREE(pn, plo, plo+q.nodeCount, st, ix)
 
 //@ func (LinkedListQueue).Shift
-//@   prop C06
+//@   prop C06,C08
 //@   opt frame=off
 //@   modifies all
 //@   ghost nodes (Array Int Ref) of q.first
@@ -843,7 +858,7 @@ package fpgo
 //@   ensures wf-free: LQ_FREE(pn, plo, plo+q.nodeCount, st, ix)
 
 //@ func (LinkedListQueue).Pop
-//@   prop C06
+//@   prop C06,C08
 //@   opt frame=off
 //@   modifies all
 //@   ghost nodes (Array Int Ref) of q.first
@@ -863,7 +878,7 @@ package fpgo
 //@   ensures wf-free: LQ_FREE(pn, plo, plo+q.nodeCount, st, ix)
 
 //@ func (LinkedListQueue).Peek
-//@   prop C06
+//@   prop C06,C08
 //@   pure
 //@   ghost nodes (Array Int Ref) of q.first
 //@   ghost lo Int
@@ -877,14 +892,14 @@ package fpgo
 //@   ensures head: q.count > 0 ==> r1 == nil && r0 == *nodes[lo].Val
 
 //@ func (LinkedListQueue).Count
-//@   prop C06
+//@   prop C06,C08
 //@   pure
 //@   requires q != nil
 //@   ensures def: r0 == q.count
 
 // forwarders: same transitions as the method they delegate to
 //@ func (LinkedListQueue).Put
-//@   prop C06
+//@   prop C06,C08
 //@   opt frame=off
 //@   modifies all
 //@   ghost nodes (Array Int Ref) of q.first
@@ -904,7 +919,7 @@ package fpgo
 //@   ensures wf-free: LQ_FREE(pn, plo, plo+q.nodeCount, st, ix)
 
 //@ func (LinkedListQueue).Push
-//@   prop C06
+//@   prop C06,C08
 //@   opt frame=off
 //@   modifies all
 //@   ghost nodes (Array Int Ref) of q.first
@@ -924,7 +939,7 @@ package fpgo
 //@   ensures wf-free: LQ_FREE(pn, plo, plo+q.nodeCount, st, ix)
 
 //@ func (LinkedListQueue).Poll
-//@   prop C06
+//@   prop C06,C08
 //@   opt frame=off
 //@   modifies all
 //@   ghost nodes (Array Int Ref) of q.first
@@ -944,7 +959,7 @@ package fpgo
 //@   ensures wf-free: LQ_FREE(pn, plo, plo+q.nodeCount, st, ix)
 
 //@ func (LinkedListQueue).Take
-//@   prop C06
+//@   prop C06,C08
 //@   opt frame=off
 //@   modifies all
 //@   ghost nodes (Array Int Ref) of q.first
@@ -965,11 +980,11 @@ package fpgo
 
 // a new queue is empty: count == 0 and no node referenced, which makes the invariant hold for any ghost witnesses
 //@ func NewLinkedListQueue
-//@   prop C06
+//@   prop C06,C08
 //@   ensures new: r0 != nil && fresh(r0) && r0.count == 0 && r0.nodeCount == 0 && r0.first == nil && r0.last == nil && r0.nodePoolFirst == nil
 
 //@ func (LinkedListQueue).Clear
-//@   prop C06
+//@   prop C06,C08
 //@   opt frame=off
 //@   modifies all
 //@   ghost nodes (Array Int Ref) of q.first
@@ -991,7 +1006,7 @@ package fpgo
 
 // putAllIntoPool is inlined into its two callers; "keep" (a ghost of the caller) is the number of free nodes that stay.
 //@ func (LinkedListQueue).putAllIntoPool
-//@   prop C06
+//@   prop C06,C08
 //@   opt inline=true
 //@ func (LinkedListQueue).putAllIntoPool loop 0
 //@   invariant cursor: first == nil || (st[first] == 2 && plo+keep <= ix[first] && ix[first] < plo+old(q.nodeCount) && pn[ix[first]] == first)
@@ -1000,7 +1015,7 @@ package fpgo
 //@   invariant list: LQ_ENDS(q, nodes, lo) && LQ_LIST(nodes, lo, lo+q.count, st, ix) && LQ_SAME(nodes, lo, lo+q.count)
 
 //@ func (LinkedListQueue).ClearNodePool
-//@   prop C06
+//@   prop C06,C08
 //@   opt frame=off
 //@   modifies all
 //@   ghost nodes (Array Int Ref) of q.first
@@ -1022,7 +1037,7 @@ package fpgo
 //@   ensures wf-free: LQ_FREE(pn, plo, plo+q.nodeCount, st, ix)
 
 //@ func (LinkedListQueue).KeepNodePoolCount
-//@   prop C06
+//@   prop C06,C08
 //@   opt frame=off
 //@   opt poolfresh=st
 //@   modifies all
